@@ -13,4 +13,4 @@ pub mod clock;
 pub mod sched;
 pub mod vstd;
 
-pub use sched::{event, untracked, Ev};
+pub use sched::{event, in_harness, untracked, Ev};
